@@ -30,6 +30,11 @@ RULE = ("seeded histories (quick 500 x ~45 steps, thorough 7000 x ~50) over a po
         "objects built with CreateWithQuantity on hand-made composing maps holding two units of one quantity type "
         "(both orders) with + and - applied to them on the LEFT (succeeding and failing) and * / on either side, powers of "
         "one amount in two units combined (exponent-aware unit matching on whole containers), "
+        "the public ValidateValues(values, quantity) with foreign values / quantities before and after the verdict "
+        "is cached, probes of every other public read-only entry point of the four classes and of Quantity (__ne__, "
+        "hash, AlmostEqual, <= > >=, **, len/[]/iter, GetValueAndUnit, GetFormatted*(unit), GetUnitName, GetValidUnits, "
+        "CheckValues, IndexAsScalar(i, quantity), FromScalars, ConvertFractionValue, Quantity getters / copies / "
+        "Convert / CheckValue / arithmetic), "
         "IsValid / CheckValidity / ValidateValues (twice: cached verdict) on Scalars, FractionScalars and unsorted "
         "Arrays / FixedArrays of six categories WITH limits (accepted and rejected), a caller scribbling (edit, append, "
         "clear) into containers returned by GetValues(other unit) followed by GetValues / CreateCopy(unit) again, "
@@ -260,6 +265,21 @@ def _run_op(db, pool, op):
                 except Exception as e:
                     return dict(err=err_kind(e), near=near), None
                 return dict(ok=dict(t="unit"), near=near), None
+            elif k == "validateWith":
+                o = pool[op["i"]]
+                src = op["src"]
+                vals = (pool[src["j"]].GetValues() if "j" in src else _container(src["kind"], src["xs"]) if "kind" in src
+                        else o.GetValues())
+                q = o.GetQuantity() if op.get("qk") is None else pool[op["qk"]].GetQuantity()
+                near = _near_limit_vals(vals, q)
+                try:
+                    o.ValidateValues(vals, q)          # the public entry point, with ANY values and quantity
+                except Exception as e:
+                    return dict(err=err_kind(e), near=near), None
+                return dict(ok=dict(t="unit"), near=near), None
+            elif k == "probe":
+                _probe(pool, op)
+                return dict(ok=dict(t="unit")), None
             elif k == "scribble":
                 o = pool[op["i"]]
                 r = o.GetValues(op.get("u"))
@@ -306,6 +326,118 @@ def _scribble(r, how):
         r.clear()
     else:
         r[:] = [777.0] * len(r)
+
+
+def _near_limit_vals(vals, q):
+    try:
+        if q.IsDerived():
+            return False
+        ci = q.GetCategoryInfo()
+        if (ci.min_value is None and ci.max_value is None) or q.GetUnit() == ci.default_unit:
+            return False
+        for v in vals:
+            w = q.ConvertScalarValue(float(v), ci.default_unit)
+            for lim in (ci.min_value, ci.max_value):
+                if lim is not None and abs(w - lim) <= 1e-9 * max(abs(lim), abs(w)):
+                    return True
+    except Exception:
+        pass
+    return False
+
+
+PROBES = {
+    "any": ["ne", "unitname", "validunits", "hascategory", "suffix", "getters", "qcopy", "qhash", "qmakecopy", "qcaption",
+            "qconvert", "qcheckvalue", "qarith", "qpow", "createcopyinstance"],
+    "Scalar": ["hash", "almostequal", "valueandunit", "formattedvalue", "formatted", "order", "pow", "value"],
+    "FractionScalar": ["valueandunit", "formattedvalue", "formatted", "order", "convertfraction", "value"],
+    "Array": ["len", "getitem", "slice", "iter", "values", "fromscalars"],
+    "FixedArray": ["len", "getitem", "slice", "iter", "values", "dimension", "checkvalues", "indexq"],
+}
+
+
+def _probe(pool, op):
+    """public read-only entry points of the value classes and of Quantity that no other operation of the
+    histories calls; results and exceptions are ignored (what matters is that the operands stay as they are)"""
+    from barril.units import Array, FractionScalar, Scalar
+
+    o = pool[op["i"]]
+    o2 = pool[op["j"]] if op.get("j") is not None and op["j"] < len(pool) else o
+    u = op.get("u")
+    q, q2 = o.GetQuantity(), o2.GetQuantity()
+    w = op["what"]
+    try:
+        if w == "ne":
+            o != o2
+        elif w == "unitname":
+            o.GetUnitName(), q.GetUnitName()
+        elif w == "validunits":
+            o.GetValidUnits(), q.GetValidUnits()
+        elif w == "hascategory":
+            o.HasCategory(), o.GetUnitDatabase()
+        elif w == "suffix":
+            o.GetFormattedSuffix(), o.GetFormattedSuffix(u), o.GetFormattedSuffixFormat()
+        elif w == "getters":
+            (o.GetCategory(), o.category, o.GetQuantityType(), o.quantity_type, o.GetUnit(), o.unit, o.GetAbstractValue(),
+             q.GetCategoryInfo(), q.GetComposingCategories(), q.GetComposingUnits(), q.GetComposingUnitsJoiningExponents(),
+             q.IsDerived(), repr(q))
+        elif w == "qcopy":
+            q.GetCategoryToUnitAndExpsCopy(), q.GetCategoryToUnitAndExps()
+        elif w == "qhash":
+            hash(q), q == q2, q != q2, abs(q)
+        elif w == "qmakecopy":
+            q.MakeCopy(), q.Copy(), q.CreateCopyInstance(), q.MakeCopy(q.GetCategoryToUnitAndExpsCopy())
+        elif w == "qcaption":
+            q.GetUnitCaption(), q.GetUnknownCaption()
+        elif w == "qconvert":
+            q.Convert(o.GetAbstractValue(), u) if isinstance(o, (Array, Scalar)) else q.ConvertScalarValue(1.5, u)
+        elif w == "qcheckvalue":
+            q.CheckValue(_floats(o)[0] if _floats(o) else 0.0), q.CheckValue(1.0, use_literals=True)
+        elif w == "qarith":
+            q * q2, q / q2, 2 * q, q + q2 if op.get("same") else q - q
+        elif w == "qpow":
+            q ** 2
+        elif w == "createcopyinstance":
+            o.CreateCopyInstance(), o.__copy__(), o.__deepcopy__({})
+        elif w == "hash":
+            hash(o)
+        elif w == "almostequal":
+            o.AlmostEqual(o2, 3)
+        elif w == "valueandunit":
+            o.GetValueAndUnit()
+        elif w == "formattedvalue":
+            o.GetFormattedValue(), o.GetFormattedValue(u)
+        elif w == "formatted":
+            o.GetFormatted(), o.GetFormatted(u), str(o)
+        elif w == "order":
+            o <= o2, o > o2, o >= o2
+        elif w == "pow":
+            o ** 2, o ** 3
+        elif w == "value":
+            o.value, o.GetValue(), o.GetValue(u)
+        elif w == "convertfraction":
+            FractionScalar.ConvertFractionValue(o.GetValue(), q, o.GetUnit(), u)
+            FractionScalar.ConvertFractionValue(o.GetValue(), o.GetQuantityType(), o.GetUnit(), u)
+        elif w == "len":
+            len(o)
+        elif w == "getitem":
+            o[0], o[-1]
+        elif w == "slice":
+            o[:], o[1:]
+        elif w == "iter":
+            list(iter(o)), [x for x in o]
+        elif w == "values":
+            o.values, o.GetValues(), o.GetValues(u)
+        elif w == "fromscalars":
+            Array.FromScalars([Scalar(float(x), o.GetUnit(), o.GetCategory()) for x in o.GetValues()][:3] or
+                              [Scalar(1.0, "m")], unit=u)
+        elif w == "dimension":
+            o.GetDimension(), o.dimension
+        elif w == "checkvalues":
+            o.CheckValues(o.GetValues()), o.CheckValues(o.GetValues(), o.GetDimension())
+        elif w == "indexq":
+            o.IndexAsScalar(0, q2), o.IndexAsScalar(-1)
+    except Exception:
+        pass
 
 
 def _near_limit(o):
@@ -375,6 +507,7 @@ def run_history(ctx, ops, stop_at_change=False):
     db = _fresh_db(ctx)
     UnitDatabase.PushSingleton(db)
     pool, outs = [], []
+    near_memo = set()
     try:
         for step, op in enumerate(ops):
             before = [_snap(o) for o in pool]
@@ -382,6 +515,12 @@ def run_history(ctx, ops, stop_at_change=False):
                 out, new = _run_op(db, pool, op)
             except IndexError:      # operand index beyond the pool (only after an earlier divergence)
                 out, new = dict(err="index"), None
+            if op["k"] in ("isValid", "checkValidity", "validateWith"):
+                # a verdict decided on a near tie is cached by the Array: later verdicts of that object inherit it
+                if out.get("near"):
+                    near_memo.add(op["i"])
+                elif op["i"] in near_memo:
+                    out["near"] = True
             after = [_snap(o) for o in pool]
             changed = [i for i in range(len(pool)) if before[i] != after[i]]
             out["changed"] = changed
@@ -771,6 +910,55 @@ class Gen:
                 self.push(dict(k="isValid", i=i) if how == "IsValid" else dict(k="checkValidity", i=i, how=how))
             self.push(dict(k="getValue", i=i, u=None))
 
+    def gen_validate_with(self, i=None):
+        """the public `x.ValidateValues(values, quantity)` with foreign values (another Array's container of the same
+        or another length / kind, a new container) and the own or a foreign quantity (simple or derived)"""
+        rng = self.rng
+        arrs = self.of_class("Array", "FixedArray")
+        if not arrs:
+            return self.gen_create()
+        i = rng.choice(arrs) if i is None else i
+        r = rng.random()
+        if r < 0.2:
+            src = dict(own=True)
+        elif r < 0.6:
+            src = dict(j=rng.choice(arrs))
+        else:
+            src = dict(kind=rng.choice(KINDS), xs=self.values(rng.choice([0, 1, 2, 3, 4])))
+        qk = None if rng.random() < 0.3 else rng.randrange(len(self.pool))
+        return dict(k="validateWith", i=i, src=src, qk=qk)
+
+    def gen_probe(self):
+        rng = self.rng
+        i = rng.randrange(len(self.pool))
+        cls = type(self.pool[i]).__name__
+        what = rng.choice(PROBES["any"] + PROBES.get(cls, []) * 2)
+        same = [j for j in range(len(self.pool)) if self.pool[j].GetQuantityType() == self.pool[i].GetQuantityType()]
+        j = rng.choice(same) if rng.random() < 0.7 else rng.randrange(len(self.pool))
+        return dict(k="probe", i=i, j=j, what=what, u=self.unit_for(i), same=j in same)
+
+    def pattern_foreign_validation(self):
+        """a NEW Array / FixedArray (no cached verdict yet) is asked to validate foreign data, then its own, then
+        foreign data again (now answered from the cached verdict); in between it is looked at and used"""
+        rng = self.rng
+        n0 = len(self.pool)
+        u, c = self.unit_cat()
+        n = rng.choice([2, 3, 4])
+        if rng.random() < 0.5:
+            self.push(dict(k="mkArray", kind=rng.choice(KINDS), xs=self.values(n), u=u, c=c))
+        else:
+            self.push(dict(k="mkFixed", dim=n, kind=rng.choice(KINDS), xs=self.values(n, nz=True), u=u, c=c))
+        if len(self.pool) == n0:
+            return
+        i = n0
+        steps = [self.gen_validate_with(i), rng.choice([dict(k="isValid", i=i), dict(k="checkValidity", i=i, how="CheckValidity")]),
+                 self.gen_validate_with(i), dict(k="getValue", i=i, u=None)]
+        if rng.random() < 0.3:
+            steps[0], steps[1] = steps[1], steps[0]
+        for st in steps:
+            self.push(st)
+        self.push(self.no_floor_tie(dict(k="arith", f=rng.choice(["add", "mul"]), a=dict(i=i), b=dict(i=i))))
+
     def pattern_scribble(self):
         """the caller asks an Array for its values in another unit, writes into the container it got, and asks
         again (GetValues, CreateCopy(unit=...)): the amounts must be the original ones"""
@@ -847,6 +1035,12 @@ class Gen:
                     self.pattern_limits()
                 elif x < 0.125:
                     self.pattern_scribble()
+                elif x < 0.15:
+                    self.pattern_foreign_validation()
+                elif x < 0.21:
+                    self.push(self.gen_probe())
+                elif x < 0.23:
+                    self.push(self.gen_validate_with())
                 else:
                     self.push(self.gen_op())
         finally:
@@ -860,8 +1054,20 @@ def _enc_operand(a):
 
 def _encode(op):
     o = dict(k=op["k"])
+    if op["k"] == "probe":          # for the model a probe is a read of the operand (its values and quantity)
+        return dict(k="format", i=op["i"])
+    if op["k"] == "validateWith":
+        src = op["src"]
+        o["i"] = op["i"]
+        o["src"] = (dict(j=src["j"]) if "j" in src else dict(kind=src["kind"], xs=[qstr(exact(x)) for x in src["xs"]])
+                    if "kind" in src else dict(own=True))
+        if op.get("qk") is not None:
+            o["qk"] = op["qk"]
+        return o
     for key, v in op.items():
         if key == "k" or (key == "how" and op["k"] != "scribble"):
+            continue
+        if op["k"] == "probe":
             continue
         if isinstance(v, dict):
             o[key] = _enc_operand(v)
@@ -1101,7 +1307,9 @@ def _dev(rs, ms):
 
 
 def _operand_indices(op):
-    idx = [op[k] for k in ("i", "j") if k in op]
+    idx = [op[k] for k in ("i", "j", "qk") if op.get(k) is not None]
+    if isinstance(op.get("src"), dict) and "j" in op["src"]:
+        idx.append(op["src"]["j"])
     idx += [op[k]["i"] for k in ("a", "b", "v") if isinstance(op.get(k), dict) and "i" in op[k]]
     return idx
 
@@ -1141,7 +1349,7 @@ def _snap_agree(rs, ms, M, extra=0):
 
 
 def _agree_step(op, io, mo, extra=0):
-    if op["k"] in ("isValid", "checkValidity") and io.get("near") and not io.get("changed"):
+    if op["k"] in ("isValid", "checkValidity", "validateWith") and io.get("near") and not io.get("changed"):
         return None          # a value on a limit after a conversion: the verdict is float rounding
     if io.get("changed") or mo.get("changed"):
         return "operands changed: impl=%s model=%s %s" % (io.get("changed"), mo.get("changed"),
@@ -1311,12 +1519,17 @@ def search(ctx):
 def _remap(op, p):
     """the operation with every pool index above `p` lowered by one; None when it refers to `p` itself"""
     o = dict(op)
-    for k in ("i", "j"):
-        if k in o:
+    for k in ("i", "j", "qk"):
+        if o.get(k) is not None:
             if o[k] == p:
                 return None
             if o[k] > p:
                 o[k] -= 1
+    if isinstance(o.get("src"), dict) and "j" in o["src"]:
+        if o["src"]["j"] == p:
+            return None
+        if o["src"]["j"] > p:
+            o["src"] = dict(j=o["src"]["j"] - 1)
     for k in ("a", "b", "v"):
         if isinstance(o.get(k), dict) and "i" in o[k]:
             if o[k]["i"] == p:
